@@ -179,6 +179,11 @@ namespace
             return true;
         }
         mutable long calls = 0, steers = 0;
+        void setControlBounds(const std::vector<double> &lo, const std::vector<double> &hi)
+        {
+            ulo_ = lo;
+            uhi_ = hi;
+        }
 
     private:
         const world::World *w_;
@@ -586,6 +591,16 @@ public:
             int nops = g.chance(0.6) ? 1 : (int)g.range(2, 3);
             for (int i = 0; i < nops; i++)
                 solve((long)g.pick(std::vector<long>{0, 1, 2, 5, 20, 100, 500, 2000, 2000, budget}), true);
+            // (drawn last) the application tightens the control bounds of the space the planner is using, clears the
+            // planner and plans again: every control of the new solutions lies within the bounds that hold now
+            if (g.chance(0.15))
+            {
+                Json op = Json::object();
+                op["op"] = "tighten";
+                op["factor"] = g.pick(std::vector<double>{0.2, 0.5, 0.8});
+                ops.push(op);
+                solve((long)g.pick(std::vector<long>{20, 100, 500, 2000, budget}), false);
+            }
         }
         plan["ops"] = ops;
         return plan;
@@ -915,6 +930,25 @@ sim::CaseResult CtrlSim::runCase(const sim::Options &o, const Json &plan)
                 pl->getPlannerData(d);
                 h = sim::hashU64(h, d.numVertices());
                 res.faults["F10-getPlannerData"]++;
+                continue;
+            }
+            if (kind == "tighten")
+            {
+                double f = op.getd("factor", 0.5);
+                ob::RealVectorBounds nb((unsigned)c.sys.m);
+                for (int i = 0; i < c.sys.m; i++)
+                {
+                    double mid = 0.5 * (c.ulo[(size_t)i] + c.uhi[(size_t)i]), half = 0.5 * (c.uhi[(size_t)i] - c.ulo[(size_t)i]) * f;
+                    c.ulo[(size_t)i] = mid - half;
+                    c.uhi[(size_t)i] = mid + half;
+                    nb.setLow((unsigned)i, c.ulo[(size_t)i]);
+                    nb.setHigh((unsigned)i, c.uhi[(size_t)i]);
+                }
+                c.cs->setBounds(nb);
+                c.prop->setControlBounds(c.ulo, c.uhi);
+                pl->clear();
+                c.q->pdef->clearSolutionPaths();  // the old solutions were made under the old bounds
+                res.faults["F10-control-bounds-tightened-then-clear"]++;
                 continue;
             }
             if (kind == "clear" || kind == "newquery")
